@@ -3,7 +3,7 @@
 import json, os, subprocess
 ROOT = os.path.dirname(os.path.dirname(os.path.abspath(__file__)))
 
-CLAIMED = []  # filled as checks are built and shown silent on the unchanged tree
+CLAIMED = ["C01"]
 NA_REASON = {}
 
 P = {
